@@ -390,7 +390,7 @@ pub fn run(family: &str, cases_path: &str, events_path: &str, gen_dir: &str, sha
     }
     // shard manifests
     let home = std::env::var("VERIF_HOME").unwrap_or_else(|_| "/verif".to_string());
-    let tmpl = std::fs::read_to_string(format!("{}/harness/gen-template/Cargo.toml.tmpl", home)).unwrap();
+    let tmpl = std::fs::read_to_string(format!("{}/harness/gen-template/Cargo.toml.tmpl", home)).unwrap().replace("@HOME@", &home);
     let support = std::fs::read_to_string(format!("{}/harness/gen-template/support.rs", home)).unwrap();
     let mut members = vec![];
     for k in 0..shards {
